@@ -3,6 +3,7 @@ package moq
 import (
 	"bytes"
 	"errors"
+	"fmt"
 	"go/token"
 	"go/types"
 	"io"
@@ -57,8 +58,13 @@ func (m *Mocker) Mock(w io.Writer, namePairs ...string) error {
 	}
 
 	mocks := make([]template.MockData, len(namePairs))
+	mockNames := make(map[string]bool, len(namePairs))
 	for i, np := range namePairs {
 		name, mockName := parseInterfaceName(np)
+		if mockNames[mockName] {
+			return fmt.Errorf("mock name %s requested more than once", mockName)
+		}
+		mockNames[mockName] = true
 		iface, tparams, err := m.registry.LookupInterface(name)
 		if err != nil {
 			return err
